@@ -617,17 +617,29 @@ class Exec:
         return VSym(('const', t), ty_hint)
 
     def eval_const(self, st, f):
-        if f.const_val is not None:
-            return self.const(st, None, f.const_val, f.ret_ty)
         key = (f.crate, f.name)
-        # constants are evaluated in the current state (they only allocate fresh cells)
-        outs = self.run(f, [], st, depth=0, is_const=True)
-        outs = [o for o in outs if o.kind == 'return']
-        if len(outs) != 1:
-            raise Refuse('constant %s has %d outcomes' % (f.name, len(outs)))
-        # merge memory of the const evaluation back (cells are fresh)
-        st.mem.update(outs[0].st.mem)
-        return outs[0].val
+        stack = getattr(self, '_const_stack', ())
+        if key in stack:
+            # a constant defined in terms of a same-named constant elsewhere (e.g. IotaDID::SCHEME = CoreDID::SCHEME):
+            # try another candidate with that name, else stay opaque
+            last = split_path(f.name)[-1]
+            others = [g for g in self.prog.consts.get(last, []) if (g.crate, g.name) not in stack]
+            if others:
+                return self.eval_const(st, others[0])
+            return VSym(('const', f.name), f.ret_ty)
+        self._const_stack = stack + (key,)
+        try:
+            if f.const_val is not None:
+                return self.const(st, None, f.const_val, f.ret_ty)
+            # constants are evaluated in the current state (they only allocate fresh cells)
+            outs = self.run(f, [], st, depth=0, is_const=True)
+            outs = [o for o in outs if o.kind == 'return']
+            if len(outs) != 1:
+                raise Refuse('constant %s has %d outcomes' % (f.name, len(outs)))
+            st.mem.update(outs[0].st.mem)
+            return outs[0].val
+        finally:
+            self._const_stack = stack
 
     def alloc_bytes(self, st, data):
         n = next(self.fresh)
